@@ -120,7 +120,7 @@ func main() {
 	// 2. exhaustive boxes
 	smallLen, wideLen, tinyLen := 4, 3, 5
 	if full {
-		smallLen, wideLen, tinyLen = 6, 4, 7
+		smallLen, wideLen, tinyLen = 5, 3, 6
 	}
 	if on("small") {
 		enumStrings(alphaSmall, smallLen, 0, 1, func(b []byte) { emit(b); rep.Count("stream.exhaustive_small", 1) })
@@ -151,7 +151,7 @@ func main() {
 	g := &docGen{r: lib.NewRng(*seed)}
 	nDocs := 30000
 	if full {
-		nDocs = 400000
+		nDocs = 150000
 	}
 	if !on("rand") {
 		nDocs = 0
